@@ -220,6 +220,28 @@ def run(chk):
                                                                    expected=exp.hex()[:600], observed=got.hex()[:600] if got else None),
                           '%s at release %d on a context previously used at release %s, after a write that failed: %s' % (NAMES[p], v, prev, what))
         prev = v
+    # a VarInt field cannot carry a negative number (pyCraft's VarInt refuses them): writing such a packet must fail, not put
+    # some other number on the wire
+    seen = set()
+    for job in jobs:
+        v, p, q, ctx, cls, sid, lay, vals, cc, key, case = job
+        vi = next((k for k, sl in enumerate(lay) if sl == ['VarInt']), None)
+        if vi is None or (v, p) in seen:
+            continue
+        seen.add((v, p))
+        for neg in (-1, -128, -129, -2 ** 31):
+            pk = cls(context=ctx)
+            for nm, py, _m in vals:
+                setattr(pk, nm, py)
+            setattr(pk, vals[vi][0], neg)
+            chk.count('negative-varint', [v, p, neg], True)
+            try:
+                got = c05.frame_of(pk)
+            except Exception:
+                continue
+            chk.violation('negative-varint', key + ':negative:%d' % neg, dict(case=dict(case, field=vals[vi][0], value=neg), observed=got.hex()[:200]),
+                          '%s at release %d with %s = %d was written as %s instead of being refused' % (NAMES[p], v, vals[vi][0], neg, got.hex()[:40]))
+            break
     if live:
         (v, p, *_), fr = live[len(live) // 2]
         chk.sample('bytes', {'release': v, 'packet': NAMES[p], 'frame': fr.hex()[:80]}, k=3)
